@@ -343,6 +343,8 @@ func (p *ParametersLiteral) UnmarshalJSON(b []byte) (err error) {
 	p.LogN = pl.LogN
 	p.LogNthRoot = pl.LogNthRoot
 	p.Q, p.P, p.LogQ, p.LogP = pl.Q, pl.P, pl.LogQ, pl.LogP
+	// Distributions that are absent from the encoding are unset (default values), as every other field.
+	p.Xs, p.Xe = nil, nil
 	if pl.Xs != nil {
 		p.Xs, err = ring.ParametersFromMap(pl.Xs)
 		if err != nil {
